@@ -32,7 +32,7 @@ def match(prop, signature, entries=None):
     for e in entries:
         if e.get('signature') == signature:
             return e
-        g = e.get('signature_glob')
-        if g and fnmatch.fnmatchcase(signature, g):
+        globs = ([e['signature_glob']] if e.get('signature_glob') else []) + list(e.get('signature_globs') or [])
+        if any(fnmatch.fnmatchcase(signature, g) for g in globs):
             return e
     return None
